@@ -136,6 +136,11 @@ Ltac eq_cases x t := let Hne := fresh "Hne" in destruct (Nat.eq_dec x t) as [->|
 Ltac finish := repeat match goal with H : _ /\ _ |- _ => destruct H end;
   repeat split; intros; try discriminate; try congruence; try lia; try tauto.
 
+Ltac dand := repeat match goal with H : _ /\ _ |- _ => destruct H end.
+Ltac crush := dand; repeat match goal with H : _ \/ _ |- _ => destruct H; dand end;
+  try (exfalso; lia); repeat split; intros; try lia; try tauto; try congruence;
+  try (left; repeat split; (lia || congruence)); try (right; repeat split; (lia || congruence)).
+
 Ltac btrue := repeat match goal with
   | H : (_ && _) = true |- _ => apply andb_prop in H; destruct H
   | H : negb _ = true |- _ => apply negb_true_iff in H
@@ -240,32 +245,32 @@ Proof.
     pose proof (cnt_remove1_same t (sendq s) ltac:(assumption)) as Hr.
     cbn. destruct (closed s); unfold J, shape, q in *; cbn; eq_cases x t; cnt_other; try exact HJx.
     + destruct HJx as (HA & HB & HS). split; [exact HA | split; [exact HB|]].
-      destruct (ts s t); cbn in *; try (exfalso; lia); try tauto; lia.
+      destruct (ts s t); cbn in *; crush.
     + destruct HJx as (HA & HB & HS). split; [exact HA | split; [exact HB|]]. rewrite ?Nat.eqb_refl.
-      destruct (ts s t); cbn in *; try (exfalso; lia); try tauto; lia.
+      destruct (ts s t); cbn in *; crush.
   - (* LWorkerTake *)
     assert (Hq : 1 <= cnt t (actq s)) by (apply mem_cnt; assumption).
     pose proof (cnt_remove1_same t (actq s) ltac:(assumption)) as Hr.
     unfold J, shape, q in *; cbn; eq_cases x t; cnt_other; try exact HJx.
     destruct HJx as (HA & HB & HS). split; [exact HA | split; [exact HB|]]. rewrite ?Nat.eqb_refl.
-    destruct (ts s t); cbn in *; try (exfalso; lia); try tauto; lia.
+    destruct (ts s t); cbn in *; crush.
   - (* LBuildStart *)
     assert (Hq : 1 <= cnt t (taken s)) by (apply mem_cnt; assumption).
     pose proof (cnt_remove1_same t (taken s) ltac:(assumption)) as Hr.
     unfold J, shape, q in *; cbn; eq_cases x t; cnt_other; try exact HJx.
     destruct HJx as (HA & HB & HS). rewrite ?Nat.eqb_refl.
-    destruct (ts s t) eqn:Ets; cbn in *; try (exfalso; lia); try tauto.
-    split; [split; [intros Hn; apply HA in Hn; lia | lia] | split; [intros Hl; specialize (HB Hl); discriminate | lia]].
+    destruct (ts s t) eqn:Ets; cbn in *; dand; try (exfalso; lia); try tauto.
+    split; [split; [intros Hn; apply HA in Hn; lia | lia] | split; [intros Hl; specialize (HB Hl); discriminate | crush]].
   - (* LBuildOk *)
     assert (Hq : 1 <= cnt t (building s)) by (apply mem_cnt; assumption).
     pose proof (cnt_remove1_same t (building s) ltac:(assumption)) as Hr.
     unfold J, shape, q in *; cbn; eq_cases x t; cnt_other; try exact HJx.
     destruct HJx as (HA & HB & HS). rewrite ?Nat.eqb_refl.
-    destruct (ts s t) eqn:Ets; cbn in *; try (exfalso; lia); try tauto.
+    destruct (ts s t) eqn:Ets; cbn in *; dand; try (exfalso; lia); try tauto.
     assert (Ho : o = Built \/ o = Unchanged \/ o = Reused).
     { unfold built_kind, st_eqb in *. destruct o; cbn in *; try discriminate; auto. }
     split; [split; [intros Hn; apply HA in Hn; lia | destruct Ho as [->|[->| ->]]; cbn; lia] | split; [intros Hl; specialize (HB Hl); discriminate |]].
-    destruct Ho as [->|[->| ->]]; cbn; (repeat split; try lia; left; lia).
+    destruct Ho as [->|[->| ->]]; cbn; (repeat split; try lia; left; repeat split; (lia || congruence)).
   - (* LBuildFail *)
     assert (Hq : 1 <= cnt t (building s)) by (apply mem_cnt; assumption).
     pose proof (cnt_remove1_same t (building s) ltac:(assumption)) as Hr.
@@ -274,24 +279,21 @@ Proof.
     repeat match goal with H : _ (log_fail _ _ _) = _ |- _ => rewrite H; clear H end.
     eq_cases x t; cnt_other; try exact HJx.
     destruct HJx as (HA & HB & HS). rewrite ?Nat.eqb_refl.
-    destruct (ts s t) eqn:Ets; cbn in *; try (exfalso; lia); try tauto.
-    split; [split; [intros Hn; apply HA in Hn; lia | lia] | split; [intros Hl; specialize (HB Hl); discriminate |]].
-    repeat split; try lia. left. lia.
+    destruct (ts s t) eqn:Ets; cbn in *; dand; try (exfalso; lia); try tauto.
+    split; [split; [intros Hn; apply HA in Hn; lia | lia] | split; [intros Hl; specialize (HB Hl); discriminate | crush]].
   - (* LFinishBuild *)
     assert (Hq : 1 <= cnt t (finishing s)) by (apply mem_cnt; assumption).
     pose proof (cnt_remove1_same t (finishing s) ltac:(assumption)) as Hr.
     unfold J, shape, q in *; cbn; eq_cases x t; cnt_other; try exact HJx.
     destruct HJx as (HA & HB & HS). split; [exact HA | split; [exact HB|]]. rewrite ?Nat.eqb_refl.
-    destruct (ts s t); cbn in *; try (exfalso; lia); try tauto;
-      (destruct HS as (? & ? & ? & ? & [(? & ? & ?)|(? & ? & ?)]); [|exfalso; lia]; repeat split; try lia; right; lia).
+    destruct (ts s t); cbn in *; crush.
   - (* LTaskDone *)
     assert (Hq : 1 <= cnt t (completing s)) by (apply mem_cnt; assumption).
     pose proof (cnt_remove1_same t (completing s) ltac:(assumption)) as Hr.
     apply J_task_done.
     unfold J, shape, q in *; cbn; eq_cases x t; cnt_other; try exact HJx.
     destruct HJx as (HA & HB & HS). split; [exact HA | split; [exact HB|]].
-    destruct (ts s t); cbn in *; try (exfalso; lia); try tauto;
-      (destruct HS as (? & ? & ? & ? & [(? & ? & ?)|(? & ? & ?)]); [exfalso; lia|]; repeat split; try lia; right; lia).
+    destruct (ts s t); cbn in *; crush.
   - (* LForward *) revert HJx. apply J_frame; reflexivity.
   - (* LStop *) revert HJx. apply J_frame; reflexivity.
   - (* LTimerCycleCheck *)
